@@ -122,6 +122,7 @@ func init() {
 	reg("telemetry0", Wrap, 0, nil, nil, true, 1)
 	reg("detail", Wrap, 1, ix(0), nil, true, 3)
 	reg("safedetails", Wrap, 3, ix(1), ix(0, 2), true, 2)
+	reg("safedetails0", Wrap, 2, ix(0), ix(1), true, 1) // an EMPTY format with arguments (one unsafe, one Safe())
 	reg("telemetry", Wrap, 2, nil, ix(0, 1), true, 2)
 	reg("domain", Wrap, 1, nil, ix(0), true, 2)
 	reg("domainraw", Wrap, 1, nil, ix(0), true, 1)   // a domain declared directly from the exported string type (no "error domain:" prefix)
@@ -192,6 +193,7 @@ func init() {
 	reg("gojoin", Multi, 0, nil, nil, false, 2)
 	reg("goerrorfmulti", Multi, 1, ix(0), nil, false, 2)
 	reg("multinofmt", Multi, 1, ix(0), nil, false, 1)
+	reg("multiis", Multi, 1, ix(0), nil, false, 1) // unregistered multi-cause type with its own Is method
 	reg("multireg", Multi, 1, ix(0), nil, false, 1)
 }
 
@@ -345,7 +347,11 @@ func Build1(n *Node, m Built) error {
 	case "asleaf":
 		return &AsLeaf{S[0]}
 	case "stacksafeleaf":
-		return &StackSafeLeaf{Msg: S[0], Safe: S[1], St: pkgErr.New("").(interface{ StackTrace() pkgErr.StackTrace }).StackTrace()}
+		st := pkgErr.New("").(interface{ StackTrace() pkgErr.StackTrace }).StackTrace()
+		if len(n.N) > 0 && n.N[0] == 1 {
+			st = st[:1] // a type that records only its creation site
+		}
+		return &StackSafeLeaf{Msg: S[0], Safe: S[1], St: st}
 	// ---- library wrappers
 	case "wrap":
 		return errors.Wrap(kids[0], S[0])
@@ -375,6 +381,8 @@ func Build1(n *Node, m Built) error {
 		return errors.WithDetail(kids[0], S[0])
 	case "safedetails":
 		return errors.WithSafeDetails(kids[0], esc(S[0])+" %s %s", S[1], errors.Safe(S[2]))
+	case "safedetails0":
+		return errors.WithSafeDetails(kids[0], "", S[0], errors.Safe(S[1]))
 	case "telemetry":
 		// a private copy: WithTelemetry keeps the variadic slice it is given, and the
 		// descriptor's strings are shared by every error built from it (and by the model)
@@ -515,6 +523,8 @@ func Build1(n *Node, m Built) error {
 		return j
 	case "joinbare":
 		return join.Join(append([]error(nil), kids...)...)
+	case "multiis":
+		return &MultiIs{Msg: S[0], Cs: append([]error(nil), kids...)}
 	case "gojoin":
 		return goErr.Join(kids...)
 	case "goerrorfmulti":
